@@ -86,14 +86,27 @@ type Session struct {
 	DoneFlag      bool
 	UserID        string
 	Deleted       bool
-	CreatedBy     int    // task id, -1 preseeded
-	Tenant        string // storage flavour TenantSessions: the issuer value of the context the request was persisted under ("" = every tenant)
-	SP            int    // SP index resolved from AppID at creation (-2 unknown)
+	CreatedBy     int         // task id, -1 preseeded
+	States        []sessState // every (done, user) state the request has been in, with the history position at which it began
+	Tenant        string      // storage flavour TenantSessions: the issuer value of the context the request was persisted under ("" = every tenant)
+	SP            int         // SP index resolved from AppID at creation (-2 unknown)
 	Version       int
 }
 
-// AuthReqSnap is the immutable snapshot handed to a handler.
-type AuthReqSnap struct{ s Session }
+// sessState: the stored request was in state (Done, User) from history position Seq on.
+type sessState struct {
+	Seq  int
+	Done bool
+	User string
+}
+
+// AuthReqSnap is the immutable snapshot handed to a handler — or, with storage flavour LiveRecords, a live view whose
+// Done() and GetUserID() read the stored request as it is when they are called.
+type AuthReqSnap struct {
+	s    Session
+	live *Session
+	w    *World
+}
 
 func (a *AuthReqSnap) GetID() string                       { return a.s.ID }
 func (a *AuthReqSnap) GetApplicationID() string            { return a.s.AppID }
@@ -103,8 +116,30 @@ func (a *AuthReqSnap) GetBindingType() string              { return a.s.Binding 
 func (a *AuthReqSnap) GetAuthRequestID() string            { return a.s.AuthRequestID }
 func (a *AuthReqSnap) GetIssuer() string                   { return a.s.Issuer }
 func (a *AuthReqSnap) GetDestination() string              { return a.s.Destination }
-func (a *AuthReqSnap) GetUserID() string                   { return a.s.UserID }
-func (a *AuthReqSnap) Done() bool                          { return a.s.DoneFlag }
+func (a *AuthReqSnap) GetUserID() string {
+	if a.live != nil {
+		a.w.mu.Lock()
+		defer a.w.mu.Unlock()
+		return a.live.UserID
+	}
+	return a.s.UserID
+}
+func (a *AuthReqSnap) Done() bool {
+	if a.live != nil {
+		a.w.mu.Lock()
+		defer a.w.mu.Unlock()
+		return a.live.DoneFlag
+	}
+	return a.s.DoneFlag
+}
+
+// noteState records the (done, user) state a stored request is in from now on. Caller holds w.mu.
+func (w *World) noteState(se *Session) {
+	w.hist.mu.Lock()
+	seq := len(w.hist.Events)
+	w.hist.mu.Unlock()
+	se.States = append(se.States, sessState{Seq: seq, Done: se.DoneFlag, User: se.UserID})
+}
 
 var _ models.AuthRequestInt = (*AuthReqSnap)(nil)
 
@@ -748,7 +783,10 @@ func (w *World) run() {
 		if ps.Done && len(w.cfg.Users) > 0 {
 			s.DoneFlag = true
 			s.UserID = w.cfg.Users[mod(ps.User, len(w.cfg.Users))].ID
+		} else if w.cfg.LiveRecords && len(w.cfg.Users) > 0 {
+			s.UserID = w.cfg.Users[mod(ps.User, len(w.cfg.Users))].ID // the login UI preselected a user who has not authenticated yet
 		}
+		w.noteState(s)
 		w.sessions = append(w.sessions, s)
 		w.hist.add("preseed", -1, fmt.Sprintf("session %d done=%v", s.Idx, s.DoneFlag))
 	}
@@ -1226,6 +1264,7 @@ func (w *World) mutate(s *Step) {
 			se.DoneFlag = false
 		}
 		se.Version++
+		w.noteState(se)
 		w.mu.Unlock()
 		w.hist.add("mutate", -1, fmt.Sprintf("%s session %d user %s", s.Mut, se.Idx, se.UserID))
 		for _, t := range w.inflight() {
@@ -1831,6 +1870,7 @@ func (s *simStorage) CreateAuthRequest(ctx context.Context, req *samlp.AuthnRequ
 		c := n.Cfg
 		rec.IssuerSP, rec.IssuerSPVer, rec.IssuerSPCfg = n.Idx, n.Version, &c
 	}
+	s.w.noteState(se)
 	se.ID = s.w.sessionID(se.Idx)
 	if s.w.cfg.TenantSessions {
 		// per-tenant counter: the same id exists in several tenants
@@ -1901,6 +1941,10 @@ func (s *simStorage) AuthRequestByID(ctx context.Context, id string) (models.Aut
 	}
 	rec.Snap = &snap
 	rec.Ret = fmt.Sprintf("session%d done=%v", snap.Idx, snap.DoneFlag)
+	if s.w.cfg.LiveRecords && shadowFrom(ctx) == nil {
+		s.w.probe("live_record_handed_out")
+		return &AuthReqSnap{s: snap, live: found, w: s.w}, nil
+	}
 	return &AuthReqSnap{s: snap}, nil
 }
 
